@@ -145,10 +145,41 @@ def rule_flush(ctx, R):
             R.check(ok, "flush:%s" % b.lname(w), "every path from an executed command back to the prompt flushes the %s writer (the `?` error exit leaves the loop)" % b.lname(w), t["span"]["at"])
 
 
+def rule_eofmark(ctx, R, body_name=None):
+    """An entered empty line must not look like end of input: where the prompt loop leaves on `line == ""`, the real
+    stdin reader has to return every line with its terminator (C14.KEEPNL)."""
+    from . import p_c14
+    fb = ctx.fb
+    b = fb.bodies.get(body_name or INTERP)
+    if not R.anchor(b is not None, "prompt_loop_fn", body_name or INTERP):
+        return
+    R.analyse(b.name)
+    cfg = normal_cfg(b)
+    roles = Roles(b, fb, param_roles={1: "TERM", 2: "OPT"})
+    ev = Events(b, fb, roles=roles)
+    eof_edges = []
+    for gb, blk in enumerate(b.blocks):
+        tt = blk["term"]
+        if tt["k"] == "switch":
+            for s_ in cfg.succ[gb]:
+                lab = ev.generic_edge(gb, tt, s_) or ""
+                if "io::read_line_from" in lab and ("K''" in lab or "is_empty" in lab) and "trim" not in lab:
+                    eof_edges.append((gb, s_, lab))
+    exits = [bi for bi, t in b.calls() if callee_name(t["f"], fb) == "std::process::exit"]
+    reads = [bi for bi, t in b.calls() if callee_name(t["f"], fb) == "hyeong::util::io::read_line_from"]
+    uses_empty = [e for e in eof_edges if e[2].endswith("=1") and any(reaches_without(cfg, [e[1]], x, cut_blocks=reads) for x in exits)]
+    if not uses_empty:
+        R.ok("eofmark:not_used", "the prompt loop does not take the untrimmed empty string as end of input; nothing to require of the reader")
+        return
+    R.ok("eofmark:used", "the prompt loop leaves on an empty (untrimmed) line: %s" % uses_empty[0][2][:100], b.blocks[uses_empty[0][0]]["term"]["span"]["at"])
+    return dict((r[0], r[2]) for r in p_c14.RULES)["C14.KEEPNL"](ctx, R)
+
+
 RULES = [
     ("C12.STATE", "the session state is threaded through execute() from line to line; clear = fresh state", rule_state),
     ("C12.FLUSH", "per-line output is flushed before the next prompt", rule_flush),
     ("C12.ONCE", "capturing writer delivers text exactly once", p_c11.rule_once),
     ("C12.EXITFLUSH", "program-requested exits flush both writers first", p_c01.rule_pop),
     ("C12.LOOP", "execute(): run from the appended command until control passes it", p_c01.rule_loop),
+    ("C12.EOFMARK", "the interactive loop takes the empty string as end of input, so the real stdin reader must hand every entered line back with its terminator (shared with C14.KEEPNL)", rule_eofmark),
 ]
